@@ -239,9 +239,59 @@ func fieldName(ptrT types.Type, i int) string {
 	return fmt.Sprintf("f%d", i)
 }
 
+// fieldAlias maps "import path.Type.currentName" -> frozen name for struct fields that were renamed: the frozen
+// table knows a field of that struct that no longer exists, and exactly one field of the same type carries a name the
+// table does not know. Rules keep using the frozen names.
+var fieldAlias = map[string]string{}
+var fieldAliasDone = map[string]bool{}
+
+func canonicalFieldName(t types.Type, name string) string {
+	n, ok := t.(*types.Named)
+	if !ok || n.Obj().Pkg() == nil {
+		return name
+	}
+	st, ok := n.Underlying().(*types.Struct)
+	if !ok {
+		return name
+	}
+	prefix := n.Obj().Pkg().Path() + "." + n.Obj().Name() + "."
+	if !fieldAliasDone[prefix] {
+		fieldAliasDone[prefix] = true
+		current := map[string]string{}
+		for i := 0; i < st.NumFields(); i++ {
+			current[st.Field(i).Name()] = types.TypeString(st.Field(i).Type(), nil)
+		}
+		for k, ft := range FrozenFields {
+			if !strings.HasPrefix(k, prefix) {
+				continue
+			}
+			old := strings.TrimPrefix(k, prefix)
+			if strings.Contains(old, ".") {
+				continue
+			}
+			if _, still := current[old]; still {
+				continue
+			}
+			var cands []string
+			for cn, ct := range current {
+				if _, known := FrozenFields[prefix+cn]; !known && ct == ft {
+					cands = append(cands, cn)
+				}
+			}
+			if len(cands) == 1 {
+				fieldAlias[prefix+cands[0]] = old
+			}
+		}
+	}
+	if old, ok := fieldAlias[prefix+name]; ok {
+		return old
+	}
+	return name
+}
+
 func fieldNameStruct(t types.Type, i int) string {
 	if st, ok := t.Underlying().(*types.Struct); ok && i < st.NumFields() {
-		return st.Field(i).Name()
+		return canonicalFieldName(t, st.Field(i).Name())
 	}
 	return fmt.Sprintf("f%d", i)
 }
@@ -802,6 +852,35 @@ type SliceOpts struct {
 	Stop func(v ssa.Value) bool
 	// IntoFields: follow loads of fields/cells to the values stored in them within the same function.
 	Stores bool
+	// Helpers: a static call of an in-module function (not otherwise followed) is followed into exactly those
+	// arguments whose parameters the function's results data-depend on (two levels of calls).
+	Helpers bool
+	depth   int
+}
+
+// ParamsReachingResult: the indices of the parameters of the in-module function cal on which one of its results
+// data-depends (receiver included as index 0 for methods, as in cal.Params).
+func ParamsReachingResult(cal *ssa.Function, o SliceOpts) map[int]bool {
+	out := map[int]bool{}
+	if cal == nil || cal.Blocks == nil {
+		return out
+	}
+	o.depth++
+	o.Stores = true
+	for _, ret := range ReturnsOf(cal) {
+		for _, rv := range RetVals(ret) {
+			for x := range BackwardSlice(rv, o) {
+				if prm, ok := x.(*ssa.Parameter); ok {
+					for i, q := range cal.Params {
+						if q == prm {
+							out[i] = true
+						}
+					}
+				}
+			}
+		}
+	}
+	return out
 }
 
 // BackwardSlice returns the set of values on which v data-depends (intraprocedurally).
@@ -866,6 +945,13 @@ func BackwardSlice(v ssa.Value, o SliceOpts) map[ssa.Value]bool {
 				}
 				if x.Call.IsInvoke() {
 					visit(x.Call.Value)
+				}
+			} else if cal := Callee(x); o.Helpers && o.depth < 2 && cal != nil && InModule(cal) && cal.Blocks != nil {
+				reach := ParamsReachingResult(cal, o)
+				for i, a := range x.Call.Args {
+					if reach[i] {
+						visit(a)
+					}
 				}
 			}
 			return
@@ -1206,8 +1292,17 @@ func SameKey(a, b ssa.Value) bool {
 // say that c had the value that leads to S (the same SSA value c, so the same evaluation: two `if first {…}`
 // statements on one flag).
 func (p *Prog) DominatesModuloFacts(a, b ssa.Instruction) bool {
+	return p.DominatesModuloFactSet(a, b, nil)
+}
+
+// DominatesModuloFactSet is DominatesModuloFacts with the facts known at b given explicitly (nil: FactsAt(b)), e.g.
+// the facts at a return of a boolean helper together with the value it returns.
+func (p *Prog) DominatesModuloFactSet(a, b ssa.Instruction, known FactSet) bool {
 	if Dominates(a, b) {
 		return true
+	}
+	if known == nil {
+		known = p.FactsAt(b)
 	}
 	if a.Parent() != b.Parent() {
 		return false
@@ -1219,7 +1314,7 @@ func (p *Prog) DominatesModuloFacts(a, b ssa.Instruction) bool {
 			H := A.Preds[0]
 			if iff, ok := H.Instrs[len(H.Instrs)-1].(*ssa.If); ok && H.Succs[0] != H.Succs[1] && H.Dominates(b.Block()) {
 				val := H.Succs[0] == A
-				for f := range p.FactsAt(b) {
+				for f := range known {
 					if f.Cond == iff.Cond && f.Val == val {
 						return true
 					}
@@ -1357,6 +1452,87 @@ func (p *Prog) CalleeFacts(call *ssa.Call, val bool) (FactSet, map[ssa.Value]ssa
 		}
 	}
 	return acc, subst
+}
+
+// RetFacts pairs a return instruction with the facts that hold there when the function returns a given boolean.
+type RetFacts struct {
+	Ret   *ssa.Return
+	Facts FactSet
+}
+
+// CalleeReturnFacts: per return instruction of the in-module boolean function h that can yield val, the facts that
+// hold there when it does.
+func (p *Prog) CalleeReturnFacts(h *ssa.Function, val bool) []RetFacts {
+	if h == nil || !InModule(h) || h.Blocks == nil || h.Signature.Results().Len() != 1 {
+		return nil
+	}
+	if b, ok := h.Signature.Results().At(0).Type().Underlying().(*types.Basic); !ok || b.Kind() != types.Bool {
+		return nil
+	}
+	var out []RetFacts
+	for _, ret := range ReturnsOf(h) {
+		rv := RetVals(ret)[0]
+		if c, isConst := ConstBool(rv); isConst {
+			if c == val {
+				out = append(out, RetFacts{ret, p.FactsAt(ret)})
+			}
+			continue
+		}
+		tmp := FactSet{}
+		for f := range p.FactsAt(ret) {
+			tmp[f] = true
+		}
+		addCond(tmp, rv, val)
+		out = append(out, RetFacts{ret, p.RefineFacts(tmp)})
+	}
+	return out
+}
+
+// CalleeCases: one fact set (over the callee's own SSA values) per way in which the in-module boolean function
+// called by `call` can return `val` - per return instruction, and per incoming edge where the returned value is a
+// short-circuit phi - together with the parameter -> argument substitution. Where CalleeFacts gives what holds on
+// all of them (a conjunction), this serves disjunctive predicates (`return !ok || a || b`).
+func (p *Prog) CalleeCases(call *ssa.Call, val bool) ([]FactSet, map[ssa.Value]ssa.Value) {
+	h := Callee(call)
+	if h == nil || !InModule(h) || h.Blocks == nil || h.Signature.Results().Len() != 1 {
+		return nil, nil
+	}
+	if b, ok := h.Signature.Results().At(0).Type().Underlying().(*types.Basic); !ok || b.Kind() != types.Bool {
+		return nil, nil
+	}
+	subst := map[ssa.Value]ssa.Value{}
+	for i, prm := range h.Params {
+		if i < len(call.Call.Args) {
+			subst[prm] = call.Call.Args[i]
+		}
+	}
+	var out []FactSet
+	var cases func(rv ssa.Value, base FactSet, depth int)
+	cases = func(rv ssa.Value, base FactSet, depth int) {
+		if c, isConst := ConstBool(rv); isConst {
+			if c == val {
+				out = append(out, p.RefineFacts(base))
+			}
+			return
+		}
+		if ph, ok := rv.(*ssa.Phi); ok && depth < 4 && !Reaches(ph.Block(), ph.Block(), false) {
+			efs := p.PhiEdgeFacts(ph)
+			for i, e := range ph.Edges {
+				cases(e, efs[i], depth+1)
+			}
+			return
+		}
+		tmp := FactSet{}
+		for f := range base {
+			tmp[f] = true
+		}
+		addCond(tmp, rv, val)
+		out = append(out, p.RefineFacts(tmp))
+	}
+	for _, ret := range ReturnsOf(h) {
+		cases(RetVals(ret)[0], p.FactsAt(ret), 0)
+	}
+	return out, subst
 }
 
 // Outer returns the outermost enclosing function of fn.
